@@ -57,7 +57,7 @@ RULE = ("generated modules with eval-when-compile / eval-and-compile / do-mac fo
         "Three modules share one pair of child processes (each module is one evaluation). "
         "Non-trivial = >= 2 staging forms, at least one of them inside a function, byte-code path detected; "
         "distinct by module text.")
-FLOOR = {"quick": 150, "thorough": 150}
+FLOOR = {"quick": 100, "thorough": 150}
 BUDGET = {"quick": 35, "thorough": 420}
 CASE_TIMEOUT = 120
 NEEDS_EVENTS = True     # events = STAGE log lines read back
